@@ -116,24 +116,54 @@ def gen_data(dseed, cfg):
             ok = ok and np.isnan(y).sum() >= 5
         if not ok:
             continue
+        cols = {'A': a, 'Y': y, 'W1': w1, 'W2': w2, 'X': x * float(cfg.get('xscale') or 1.0)}
+        nd = int(cfg.get('dropped') or 0)
+        if nd:
+            # nd further rows that every estimator must discard (exposure, a covariate or an unused column missing).
+            # Their outcomes are unremarkable or lie far outside the range of the analysed rows: rows that are not
+            # analysed must not influence anything.
+            span = float(yo.max() - yo.min()) if cfg['outcome'] == 'continuous' else 1.0
+            if cfg['outcome'] == 'binary':
+                ey = r.integers(0, 2, nd).astype(float)
+            else:
+                ey = r.choice(yo, nd).astype(float)
+                far = r.uniform(size=nd) < 0.7
+                far[0] = True
+                up = r.uniform(size=nd) < 0.5
+                ey = np.where(far, np.where(up, yo.max() + r.uniform(0.3, 3.0, nd) * span,
+                                            yo.min() - r.uniform(0.3, 3.0, nd) * span), ey)
+                ey = np.round(ey, 3)
+            if cfg['missing'] != 'none':
+                ey = np.where(r.uniform(size=nd) < 0.2, np.nan, ey)
+            extra = {'A': r.integers(0, 2, nd).astype(float), 'Y': ey, 'W1': r.integers(0, 2, nd).astype(float),
+                     'W2': r.integers(0, 3, nd), 'X': np.round(r.normal(size=nd), 3) * float(cfg.get('xscale') or 1.0),
+                     'U': np.round(r.normal(size=nd), 2)}
+            which = r.integers(0, 4, nd)
+            for j, col in enumerate(('A', 'W1', 'X', 'U')):
+                extra[col] = np.where(which == j, np.nan, extra[col])
+            cols['U'] = np.round(r.normal(size=n), 2)
+            perm = r.permutation(n + nd)
+            cols = {k: np.concatenate([np.asarray(cols[k], dtype=float if k != 'W2' else int), extra[k]])[perm]
+                    for k in ('A', 'Y', 'W1', 'W2', 'X', 'U')}
+        nt = n + nd
         kind = cfg.get('index') or ('range', 'shifted', 'even')[int(r.integers(0, 3))]
         if kind == 'range':
-            idx = np.arange(n)
+            idx = np.arange(nt)
         elif kind == 'shifted':
-            idx = r.permutation(n) + int(r.integers(1, 1000))
+            idx = r.permutation(nt) + int(r.integers(1, 1000))
         elif kind == 'even':
-            idx = np.arange(n) * 2 + 5
+            idx = np.arange(nt) * 2 + 5
         elif kind == 'string':
-            idx = np.array(['id%05d' % v for v in r.permutation(n)], dtype=object)
+            idx = np.array(['id%05d' % v for v in r.permutation(nt)], dtype=object)
         elif kind == 'repeated':
-            idx = r.integers(0, max(2, n // 3), n)
+            idx = r.integers(0, max(2, nt // 3), nt)
         else:
             raise KeyError(kind)
-        df = pd.DataFrame({'A': a, 'Y': y, 'W1': w1, 'W2': w2, 'X': x}, index=idx)
+        df = pd.DataFrame(cols, index=idx)
         adt = cfg.get('adtype')
-        if adt:
+        if adt and not df['A'].isna().any():
             df['A'] = df['A'].astype(adt)
-        if cfg.get('wdtype'):
+        if cfg.get('wdtype') and (not df['W1'].isna().any() or str(cfg['wdtype']).startswith('float')):
             df['W1'] = df['W1'].astype(cfg['wdtype'])
         return df
     raise RuntimeError('generator could not produce an admissible data set for %r' % (cfg,))
@@ -163,6 +193,10 @@ def learner(which, cfg):
 
 def new_tmle(df, cfg):
     from zepid.causal.doublyrobust import TMLE
+    if cfg.get('positional'):                           # documented signature: TMLE(df, exposure, outcome, alpha, cb)
+        if cfg['outcome'] == 'continuous':
+            return TMLE(df, 'A', 'Y', cfg['alpha'], cfg['cb'])
+        return TMLE(df, 'A', 'Y', cfg['alpha'])
     if cfg['outcome'] == 'continuous':
         return TMLE(df, exposure='A', outcome='Y', alpha=cfg['alpha'], continuous_bound=cfg['cb'])
     return TMLE(df, exposure='A', outcome='Y', alpha=cfg['alpha'])
@@ -294,7 +328,8 @@ def check_tmle_case(chk, drv, cfg, dseed, hist='single', cfg0=None):
     case = {'kind': 'TMLE.fit', 'cfg': cfg, 'dseed': dseed, 'hist': hist, 'cfg0': cfg0}
     chk.count(cell_name(cfg))
     chk.count('history ' + hist)
-    for k in ('extreme', 'rare', 'custom', 'adtype', 'index', 'warm', 'termorder', 'order'):
+    for k in ('extreme', 'rare', 'custom', 'adtype', 'index', 'warm', 'termorder', 'order', 'dropped', 'positional',
+              'xscale'):
         if cfg.get(k):
             chk.count('%s=%s' % (k, cfg[k]))
     try:
@@ -367,8 +402,20 @@ def compare_fresh(chk, t, snap, eff, case):
           'the last specification', dict(case, differs=bad, history=a, fresh=b))
 
 
+def analysed_rows(snap, outcome='Y', drop_outcome=False):
+    """rows of the caller's frame the estimator is documented to analyse: every column other than the outcome
+    observed (the cross-fit estimators also drop rows with a missing outcome)"""
+    keep = snap.drop(columns=[outcome]).notna().all(axis=1)
+    if drop_outcome:
+        keep = keep & snap[outcome].notna()
+    return snap[keep.to_numpy()]
+
+
 def evaluate_tmle(chk, drv, t, snap, cfg, case):
+    n_in = len(snap)
+    snap = analysed_rows(snap)
     n = len(snap)
+    chk.count('rows discarded by TMLE > 0' if n < n_in else 'no row discarded')
     p = t._verif_probe_
     cont = cfg['outcome'] == 'continuous'
     # ---- what the caller passed in (row order is preserved; no covariate is missing, so no row is dropped)
@@ -724,8 +771,9 @@ def check_cf_estimator(chk, drv, cfg, dseed):
     from zepid.superlearner import GLMSL
     mod = crossfit_module()
     dcfg = dict(outcome=cfg['outcome'], missing='none', xcont=True, nlo=cfg['nlo'], nhi=cfg['nhi'],
-                adtype=cfg.get('adtype'), index='range')
-    df = gen_data(dseed, dcfg).reset_index(drop=True)
+                adtype=cfg.get('adtype'), index=cfg.get('index') or 'range', dropped=cfg.get('dropped') or 0)
+    df = gen_data(dseed, dcfg)
+    snap = analysed_rows(df.copy(deep=True), drop_outcome=True)      # the rows the estimator is documented to analyse
     case = {'kind': cfg['estimator'], 'cfg': cfg, 'dseed': dseed, 'n': len(df)}
     binom = sm.families.family.Binomial()
     learner = GLMSL(binom) if cfg['learner'] == 'glm' else LogisticRegression(C=1e6, solver='lbfgs', max_iter=500)
@@ -750,7 +798,7 @@ def check_cf_estimator(chk, drv, cfg, dseed):
         # a fractional-logit GLM keeps the initial predictions of a unit-scaled continuous outcome inside (0,1), which
         # is the precondition of the targeting step (the cross-fit estimators do not clip outcome predictions)
         est.outcome_model('A + W1 + X', GLMSL(binom) if cont else learner)
-        est.fit(n_splits=cfg['k'], n_partitions=1, random_state=int(dseed % 100000))
+        est.fit(n_splits=cfg['k'], n_partitions=1, random_state=0 if cfg.get('rs0') else int(dseed % 100000))
         err = None
     except Exception as e:                              # noqa: BLE001
         err = '%s: %s' % (type(e).__name__, e)
@@ -773,7 +821,18 @@ def check_cf_estimator(chk, drv, cfg, dseed):
         if not pre:
             chk.discard('learner predictions outside (0,1): precondition of the targeting step not met')
             return
-        lo, hi = (float(df['Y'].min()), float(df['Y'].max())) if cont else (None, None)
+        lo, hi = (float(snap['Y'].min()), float(snap['Y'].max())) if cont else (None, None)
+        # the targeting step works on the caller's analysed rows (each exactly once; the split order is the
+        # estimator's business) with the outcome on the documented unit scale of *their* observed range
+        ya = np.asarray(snap['Y'], dtype=float)
+        if cont:
+            ya = np.clip((ya - lo) / (hi - lo), 0.0005, 1 - 0.0005)
+        want = sorted(zip(np.asarray(snap['A'], dtype=float).tolist(), ya.tolist()))
+        gotp = sorted(zip(np.asarray(full['a'], dtype=float).tolist(), np.asarray(full['y'], dtype=float).tolist()))
+        chk.d(len(want) == len(gotp) and all(u[0] == v[0] and close(u[1], v[1], rtol=1e-12, atol=1e-15)
+                                              for u, v in zip(want, gotp)),
+              '%s targets exactly the caller\'s analysed rows (exposure, outcome on the unit scale of their observed '
+              'range)' % cfg['estimator'], case)
         got = eval_targeting(chk, drv, case, full, out, probes, cont_range=(lo, hi) if cont else None)
         if got is None:
             return
@@ -855,7 +914,9 @@ def data_options(rng, outcome, missing, xcont, tier, plain=False):
     if not plain:
         d.update(adtype=str(rng.choice(['int64', 'int64', 'int8', 'uint8', 'uint16', 'float64', 'int32'])),
                  wdtype=str(rng.choice(['int64', 'int16', 'float32'])),
-                 index=str(rng.choice(['range', 'shifted', 'even', 'string', 'repeated'])))
+                 index=str(rng.choice(['range', 'shifted', 'even', 'string', 'repeated'])),
+                 dropped=int(rng.choice([0, 0, 1, 3, 6])), positional=bool(rng.integers(0, 2)),
+                 xscale=float(rng.choice([1.0, 1.0, 250.0, 0.004])))
     return d
 
 
@@ -909,6 +970,14 @@ def tmle_cells(rng, tier):
                 cfg.update(spec_options(rng, outcome, missing, 'none', plain=True))
                 cfg.update(extreme=True, nlo=700, nhi=1200, inter=False)
                 yield cfg, seed(), 'single', None
+    # (5) rows the estimator must discard, with outcomes outside the analysed range
+    for outcome in ('continuous', 'binary'):
+        for missing in ('none', 'nomodel', 'model'):
+            for rep in range((2 if tier == 'quick' else 8) if outcome == 'continuous' else (1 if tier == 'quick' else 3)):
+                cfg = data_options(rng, outcome, missing, bool(rep % 2), tier, plain=True)
+                cfg.update(spec_options(rng, outcome, missing, str(rng.choice(['none', 'sym', 'asym'])), plain=True))
+                cfg.update(dropped=int(rng.choice([1, 2, 5])), index=str(rng.choice(['range', 'shifted'])))
+                yield cfg, seed(), 'single', None
     for missing in ('none', 'nomodel', 'model'):
         for rep in range(2 if tier == 'quick' else 10):
             cfg = data_options(rng, 'binary', missing, bool(rep % 2), tier, plain=True)
@@ -939,7 +1008,9 @@ def run(chk, drv, rng, tier):
                     for _ in range(reps):
                         gb = None if rng.uniform() < 0.5 else [0.2, 0.7]
                         cfg = dict(estimator=estimator, outcome=outcome, learner=learner, k=k, gbound=gb, nlo=300,
-                                   nhi=600, adtype=str(rng.choice(['int64', 'uint8', 'uint16', 'int8', 'float64'])))
+                                   nhi=600, adtype=str(rng.choice(['int64', 'uint8', 'uint16', 'int8', 'float64'])),
+                                   dropped=int(rng.choice([0, 2, 5])), rs0=bool(rng.integers(0, 2)),
+                                   index=str(rng.choice(['range', 'shifted', 'string'])))
                         check_cf_estimator(chk, drv, cfg, int(rng.integers(0, 2 ** 31 - 1)))
     check_unit_exact(chk, drv, rng, 40 if tier == 'quick' else 400)
     chk.extra['exhaustive'] = False
